@@ -8,7 +8,10 @@
 // verdict is computed from the OBSERVED tokens/times, never from an expected schedule. Scenarios: contention
 // longer than the TTL (ticker renewals), injected renewal failure with take-over and stale unlock, and explicit
 // RenewLockLease calls (various duration arguments, by holders and non-holders) followed by a hold longer than
-// the lease while another instance contends. A heartbeat goroutine witnesses that the process was never stalled
+// the lease while another instance contends, and locks acquired with a request-scoped context (cancelled by the caller
+// after Lock returned, a deadline that passes during the hold, a cancelled ancestor, cancelled only after Unlock) held
+// for longer than a lease after that context ended while the other instances contend — the end of the context Lock
+// was called with is not an unlock. A heartbeat goroutine witnesses that the process was never stalled
 // for a sizeable part of a lease (a stalled run says nothing about the storage and is repeated).
 package main
 
@@ -354,6 +357,64 @@ func (in *inst) unlock(key string) {
 	in.log.mu.Unlock()
 }
 
+// lockCtx is lock with a request-scoped context of the given kind:
+//
+//	bg       context.Background()
+//	cancel   context.WithCancel, cancelled by the caller `delay` after Lock returned (the usual
+//	         "ctx, cancel := …; defer cancel()" around an acquisition)
+//	timeout  context.WithTimeout(delay): the deadline passes while the lock is held (only for an instance that
+//	         acquires at once: the storage's Lock polls the KV regardless of its context)
+//	parent   a value/deadline-carrying descendant of a context cancelled `delay` after Lock returned
+//	late     context.WithCancel, cancelled only after Unlock (the returned function does it)
+//
+// onLocked runs as soon as Lock has returned. lockCtx itself returns once the context has ended (bg, late: at once),
+// after logging `ctxdone <inst> <key> <kind> <time>`. The returned function is to be called after Unlock.
+type ctxKeyT struct{}
+
+func (in *inst) lockCtx(key, kind string, delay time.Duration, onLocked func()) (afterUnlock func()) {
+	ctx := context.Background()
+	var end func()
+	switch kind {
+	case "cancel", "late":
+		ctx, end = context.WithCancel(ctx)
+	case "timeout":
+		ctx, end = context.WithTimeout(ctx, delay)
+	case "parent":
+		var child func()
+		ctx, end = context.WithCancel(ctx)
+		ctx, child = context.WithTimeout(context.WithValue(ctx, ctxKeyT{}, in.id), time.Hour)
+		defer func() { prev := afterUnlock; afterUnlock = func() { child(); prev() } }()
+	}
+	done := func() {
+		in.log.mu.Lock()
+		in.log.add(hlib.F("ctxdone %d %s %s %d", in.id, hlib.HexS(kvPrefix+key), kind, now()), "-")
+		in.log.mu.Unlock()
+	}
+	err := in.st.Lock(ctx, key)
+	in.log.mu.Lock()
+	res := "ok"
+	if err != nil {
+		res = "err"
+	}
+	in.log.add(hlib.F("locked %d %s %d", in.id, hlib.HexS(kvPrefix+key), now()), res)
+	in.log.mu.Unlock()
+	onLocked()
+	switch kind {
+	case "cancel", "parent":
+		time.Sleep(delay)
+		end()
+		<-ctx.Done()
+		done()
+	case "timeout":
+		<-ctx.Done()
+		done()
+		return end
+	case "late":
+		return func() { end(); done() }
+	}
+	return func() {}
+}
+
 // renewLock brackets an explicit RenewLockLease(key, dur) call with markers; the KV renewal it makes is
 // recorded by recKV in between.
 func (in *inst) renewLock(key string, dur time.Duration) {
@@ -455,6 +516,36 @@ func scenarioExplicitRenew(log *lockLog, kv chord.KV, key string, ttl time.Durat
 	<-done
 }
 
+// scoped contexts: every instance in turn takes the lock with a request-scoped context (kinds[i], ending delays[i]
+// after its Lock returned) and then keeps the lock for `hold` — longer than a lease plus a contender's polling
+// interval — with nothing but its background renewals, while the others contend; it then renews explicitly (still
+// a proper holder), unlocks, and the next one gets its turn. Instance 0 acquires first.
+func scenarioScoped(log *lockLog, kv chord.KV, key string, ttl time.Duration, kinds []string, delays []time.Duration, base int) {
+	ins := mkInsts(len(kinds), ttl, log, kv, base)
+	hold := ttl + ttl/2 + 400*time.Millisecond
+	first := make(chan struct{})
+	var wg sync.WaitGroup
+	for i := range ins {
+		wg.Add(1)
+		go func(i int) {
+			defer wg.Done()
+			if i > 0 {
+				<-first // instance 0 has the lock
+			}
+			after := ins[i].lockCtx(key, kinds[i], delays[i], func() {
+				if i == 0 {
+					close(first)
+				}
+			})
+			time.Sleep(hold)
+			ins[i].renewLock(key, ttl)
+			ins[i].unlock(key)
+			after()
+		}(i)
+	}
+	wg.Wait()
+}
+
 // heartbeat measures the longest interval in which a 20 ms ticker goroutine of this process did not get to run.
 type heartbeat struct {
 	stop chan struct{}
@@ -529,7 +620,29 @@ func runLocksOnce(thorough bool, rng *hlib.Rng) *lockLog {
 		if thorough && round%2 == 1 {
 			hold2 = 2*ttl2 + ttl2/2 + 400*time.Millisecond
 		}
-		wg.Add(4)
+		// request-scoped acquiring contexts: 2 or 3 instances, each holding in turn; instance 0's context always ends
+		// while it holds (cancelled / deadline / cancelled ancestor), the others' kinds are random (controls included)
+		nE := 2 + rng.Intn(2)
+		ttlE := time.Second
+		if nE == 2 && rng.Bool() {
+			ttlE = 2 * time.Second
+		}
+		kindsE := []string{hlib.Pick(rng, []string{"cancel", "timeout", "parent"})}
+		delaysE := []time.Duration{time.Duration(rng.Intn(int(ttlE/time.Millisecond))) * time.Millisecond}
+		if kindsE[0] == "timeout" { // a deadline that is still ahead when Lock returns
+			delaysE[0] += 150 * time.Millisecond
+		} else if rng.Chance(30) {
+			delaysE[0] = 0 // `defer cancel()` right after the acquisition
+		}
+		for i := 1; i < nE; i++ {
+			kindsE = append(kindsE, hlib.Pick(rng, []string{"cancel", "cancel", "parent", "late", "bg"}))
+			delaysE = append(delaysE, time.Duration(rng.Intn(int(ttlE/time.Millisecond)/2))*time.Millisecond)
+		}
+		wg.Add(5)
+		go func() {
+			defer wg.Done()
+			scenarioScoped(log, kv, hlib.F("lockE%d", round), ttlE, kindsE, delaysE, 10*round+100)
+		}()
 		go func() { defer wg.Done(); scenarioContend(log, kv, hlib.F("lockA%d", round), n, hold, 10*round) }()
 		go func() { defer wg.Done(); scenarioExpiry(log, kv, hlib.F("lockB%d", round), 10*round+5) }()
 		go func() {
@@ -565,6 +678,9 @@ func emitLocks(r *hlib.Run, log *lockLog, repeated int) {
 		r.Emit(l[0], l[1])
 		op := strings.SplitN(l[0], " ", 2)[0]
 		r.Count("lock:" + op + ":" + strings.SplitN(l[1], ":", 2)[0])
+		if op == "ctxdone" {
+			r.Count("lock:acquiring-context:" + strings.Split(l[0], " ")[3])
+		}
 		if op == "locked" || op == "kvacq" || op == "kvrenew" || op == "kvrel" || op == "renewedlock" {
 			r.Case(l[0] + "|" + l[1])
 		}
@@ -575,7 +691,7 @@ var errNotExist = fs.ErrNotExist
 
 func main() {
 	r := hlib.Start()
-	r.Rule = "file store: one case = one random history (store/load/delete/exists/stat/list) over path-like keys built from a small segment alphabet (sibling keys sharing a string prefix, nesting, 4% malformed paths, 8% empty values); non-trivial evaluation = a load/exists/stat/list with its result; locks: every recorded lease call / Lock return of 2-3 real storage instances contending over one MemoryKV in real time (contention longer than the TTL, injected renewal failure, stale unlock, explicit RenewLockLease calls with various duration arguments by holders and non-holders followed by a hold longer than the lease under contention)"
+	r.Rule = "file store: one case = one random history (store/load/delete/exists/stat/list) over path-like keys built from a small segment alphabet (sibling keys sharing a string prefix, nesting, 4% malformed paths, 8% empty values); non-trivial evaluation = a load/exists/stat/list with its result; locks: every recorded lease call / Lock return of 2-3 real storage instances contending over one MemoryKV in real time (contention longer than the TTL, injected renewal failure, stale unlock, explicit RenewLockLease calls with various duration arguments by holders and non-holders followed by a hold longer than the lease under contention; locks acquired with request-scoped contexts — cancelled after Lock returned, deadline passing, cancelled ancestor, cancelled after Unlock — and held for more than a lease plus a polling interval after the context ended while 1-2 other instances contend)"
 	rng := hlib.NewRng(r.Seed)
 	f := &fileRun{r: r}
 	if r.Replay != "" {
@@ -583,7 +699,7 @@ func main() {
 		locks := false
 		for _, t := range r.ReplayLines() {
 			switch t[0] {
-			case "kvacq", "kvrenew", "kvrel", "locked", "unlocking", "unlocked", "renewing", "renewedlock":
+			case "kvacq", "kvrenew", "kvrel", "locked", "unlocking", "unlocked", "renewing", "renewedlock", "ctxdone":
 				locks = true
 			default:
 				f.op(t)
